@@ -333,14 +333,19 @@ func genC09(e *emitter, tier string, seed uint64) {
 			b6 = append(b6, 0, 0xff, 0xff, 0xff, 0xff)
 			b6 = append(b6, le64b(7)...)
 			b6 = append(append(b6, vi(c)...), tail...)
+			// extended format: the input count re-read after the marker, and the output count after it
+			b7 := append(append([]byte{1, 0, 0, 0, 0, 0, 0, 0, 0, 0xEF}, vi(c)...), tail...)
+			b8 := append(append([]byte{1, 0, 0, 0, 0, 0, 0, 0, 0, 0xEF, 0}, vi(c)...), tail...)
 			for _, x := range []struct {
 				entry string
 				b     []byte
-			}{{"tx", b}, {"tx", b2}, {"tx", b3}, {"tx", b4}, {"txs", b5}, {"tx", b6}, {"reader", b}, {"output", o}, {"input", b6[11:]}} {
+			}{{"tx", b}, {"tx", b2}, {"tx", b3}, {"tx", b4}, {"txs", b5}, {"tx", b6}, {"tx", b7}, {"tx", b8}, {"reader", b7}, {"reader", b}, {"output", o}, {"input", b6[11:]}} {
 				e.runIsolated("C09.alloc", strconv.Itoa(len(x.b)), x.entry, hex.EncodeToString(x.b))
 				e.note("crafted." + x.entry)
 			}
 			e.runIsolated("C01.parse", hex.EncodeToString(b))
+			e.runIsolated("C01.parse", hex.EncodeToString(b7))
+			e.runIsolated("C01.parse", hex.EncodeToString(b8))
 			e.runIsolated("C01.txs", hex.EncodeToString(b5))
 			e.runIsolated("C09.input", "1", hex.EncodeToString(b6[11:]))
 			e.runIsolated("C09.output", hex.EncodeToString(o))
